@@ -778,6 +778,10 @@ class VInterp(sym.Interp):
                 if rv.name == "None":
                     return rv
                 return rv if self.decide(self.apply_closure(self._closure_arg(n), [rv.args[0]], n), n) else sym.Variant("None")
+            if name == "map_or_else" and len(n["args"]) == 2 and rv.name in ("Some", "Ok", "None", "Err"):
+                if rv.name in ("Some", "Ok"):
+                    return self.apply_closure(self._closure_arg(n, 1), [rv.args[0]], n)
+                return self.apply_closure(self._closure_arg(n, 0), [] if rv.name == "None" else list(rv.args), n)
             if name in ("is_some_and", "is_ok_and", "map_or"):
                 if name == "map_or":
                     return self.apply_closure(self._closure_arg(n, 1), [rv.args[0]], n) if rv.name in ("Some", "Ok") else self.ev(n["args"][0])
